@@ -24,9 +24,9 @@ type c13Case struct {
 func init() {
 	engine.Register(&engine.Check{
 		ID: "C13", Level: "exploration",
-		Rule: "every sequence (order matters to the scan) of 1..5 (quick) / 1..6 (thorough) points on the 3x3 grid and (thorough) every set of <=6 points on the 4x4 grid; layouts XY/XYZ/XYM/XYZM with a unique tag in the extra ordinates of every input point; the >50-point path: each small input padded to 51, 52 and 60 points with copies of one of its own points, with all of its own points in rotation, and with a 4x4 filler grid; plus 51..200-point inputs on lattices from 5x5 (maximally degenerate) to 2^20; plus a 64-point block with every pair of outliers from a half-integer ring around it; ConvexHull (MultiPoint) and ConvexHullFlat. Oracle = strict monotone-chain hull in rational arithmetic: result kind (Point / 2-point LineString / Polygon) from the number of distinct, non-collinear inputs; vertex set = exact extreme points; each vertex bit-equal to an input coordinate incl. tags; ring closed, one orientation for all inputs, no collinear vertex; input slice incl. spare capacity unchanged. distinct_nontrivial = distinct inputs with >=2 distinct points",
-		Run:    c13Run,
-		Replay: func(c *engine.Ctx, kind string, raw json.RawMessage) { c13Exec(c, decodeCase[c13Case](raw)) },
+		Rule:        "every sequence (order matters to the scan) of 1..5 (quick) / 1..6 (thorough) points on the 3x3 grid and (thorough) every set of <=6 points on the 4x4 grid; layouts XY/XYZ/XYM/XYZM with a unique tag in the extra ordinates of every input point; the >50-point path: each small input padded to 51, 52 and 60 points with copies of one of its own points, with all of its own points in rotation, and with a 4x4 filler grid; plus 51..200-point inputs on lattices from 5x5 (maximally degenerate) to 2^20; plus a 64-point block with every pair of outliers from a half-integer ring around it; ConvexHull (MultiPoint) and ConvexHullFlat. Oracle = strict monotone-chain hull in rational arithmetic: result kind (Point / 2-point LineString / Polygon) from the number of distinct, non-collinear inputs; vertex set = exact extreme points; each vertex bit-equal to an input coordinate incl. tags; ring closed, one orientation for all inputs, no collinear vertex; input slice incl. spare capacity unchanged. distinct_nontrivial = distinct inputs with >=2 distinct points",
+		Run:         c13Run,
+		Replay:      func(c *engine.Ctx, kind string, raw json.RawMessage) { c13Exec(c, decodeCase[c13Case](raw)) },
 		Assumptions: []string{"integer / half-integer grid inputs (all predicates exact)"},
 	})
 }
@@ -278,7 +278,9 @@ func c13Run(c *engine.Ctx) {
 			}
 		}
 	}
-	sort.Slice(ringPts, func(i, j int) bool { return ringPts[i][0] < ringPts[j][0] || (ringPts[i][0] == ringPts[j][0] && ringPts[i][1] < ringPts[j][1]) })
+	sort.Slice(ringPts, func(i, j int) bool {
+		return ringPts[i][0] < ringPts[j][0] || (ringPts[i][0] == ringPts[j][0] && ringPts[i][1] < ringPts[j][1])
+	})
 	c.Note("outlier_candidates", len(ringPts))
 	c.Parallel(len(ringPts), func(i int) {
 		a := ringPts[i]
@@ -321,6 +323,80 @@ func c13Run(c *engine.Ctx) {
 		}
 		c13Exec(c, c13Case{Pts: pts, Layout: layouts[i%4], Via: "flat"})
 		c13Exec(c, c13Case{Pts: pts, Layout: layouts[(i+1)%4], Via: "multipoint"})
+	})
+	// few points whose directions from the lowest point differ by a cross product of +-1 or +-2
+	// at magnitudes up to 2^20 (lattice neighbours (n,n-1),(n+1,n); consecutive Fibonacci pairs):
+	// a radial sort that compares angles with a tolerance, or in rounded arithmetic, misorders them.
+	// Every permutation of the input, 8 symmetries of the plane, two translations.
+	type nc struct{ pts [][2]float64 }
+	var ncs []nc
+	M := float64(1<<20 - 1)
+	for _, n := range []float64{1000, 65535, 262144, 524287, 740000, 1<<20 - 3} {
+		ncs = append(ncs,
+			nc{[][2]float64{{0, 0}, {n, n - 1}, {n + 1, n}, {0, n}}},
+			nc{[][2]float64{{0, 0}, {n + 1, n}, {n, n - 1}, {n - 5, 3}}},
+			nc{[][2]float64{{0, 0}, {n, n - 1}, {n + 1, n}, {2*n + 1, 2*n - 1 - 0}}},
+			nc{[][2]float64{{0, 0}, {n, 1}, {n - 1, 1}, {M, 2}, {3, n}}},
+			nc{[][2]float64{{0, 0}, {n - 1, n}, {n, n + 1}, {n, 0}}},
+		)
+	}
+	fibs := []float64{1, 2}
+	for fibs[len(fibs)-1] < 1<<20 {
+		fibs = append(fibs, fibs[len(fibs)-1]+fibs[len(fibs)-2])
+	}
+	for k := 8; k+2 < len(fibs); k++ {
+		a, b, d := fibs[k], fibs[k+1], fibs[k+2]
+		if d > 1<<20 {
+			break
+		}
+		ncs = append(ncs, nc{[][2]float64{{0, 0}, {b, a}, {d, b}, {0, b}}}, nc{[][2]float64{{0, 0}, {d, b}, {b, a}, {a, b}, {d, 0}}})
+	}
+	c.Note("near_collinear_large_configurations", len(ncs))
+	c.Parallel(len(ncs), func(i int) {
+		base := ncs[i].pts
+		idx := make([]int, len(base))
+		for k := range idx {
+			idx[k] = k
+		}
+		var perms [][]int
+		var permute func(k int)
+		permute = func(k int) {
+			if k == len(idx) {
+				perms = append(perms, append([]int{}, idx...))
+				return
+			}
+			for j := k; j < len(idx); j++ {
+				idx[k], idx[j] = idx[j], idx[k]
+				permute(k + 1)
+				idx[k], idx[j] = idx[j], idx[k]
+			}
+		}
+		permute(0)
+		for sym := 0; sym < 8; sym++ {
+			for _, off := range [][2]float64{{0, 0}, {12345, 777}} {
+				for pi, pm := range perms {
+					if len(base) > 4 && pi%5 != 0 {
+						continue
+					}
+					var pts []ref.F
+					for _, k := range pm {
+						x, y := base[k][0], base[k][1]
+						if sym&1 != 0 {
+							x = -x
+						}
+						if sym&2 != 0 {
+							y = -y
+						}
+						if sym&4 != 0 {
+							x, y = y, x
+						}
+						pts = append(pts, ref.F(x+off[0]), ref.F(y+off[1]))
+					}
+					c.Count("near_collinear_large_cases", 1)
+					c13Exec(c, c13Case{Pts: pts, Layout: layouts[(pi+sym)%4], Via: "flat"})
+				}
+			}
+		}
 	})
 	if c.Thorough() {
 		// every set of <= 6 points on the 4x4 grid, in lexicographic and reversed order
